@@ -67,7 +67,7 @@ ASSUMPTIONS = [
     "algorithm class (or its UFL base class) defines an attribute; non-UFL mixin classes in the MRO define no handler",
 ]
 BUDGET = {"quick": 60, "thorough": 400}
-NCASES = {"quick": 1440, "thorough": 16000}
+NCASES = {"quick": 3200, "thorough": 32000}
 EVAL_COUNTER = "events_judged"
 FLOORS = {
     "quick": {
@@ -307,8 +307,11 @@ def chk_unique(K, name, gen, e, mode, cut=None, before=None, expected=None, tree
     cids = [I.cid(o) for o in seq]
     rootc = I.cid(e)
     got = set(cids)
-    if tree_ids is not None and any(id(o) not in tree_ids for o in seq):
-        K.viol(f"C19/{name}/foreign-node", f"{name} yielded an object that is not a node of the expression", e)
+    # (no identity check here: the == comparisons made by the visited-set lookups re-point the operands of
+    # equal nodes to one another while the traversal runs, so "is a node of the tree" is a moving target;
+    # every yielded object is judged by its structure only)
+    if any(not isinstance(o, Expr) for o in seq):
+        K.viol(f"C19/{name}/foreign-node", f"{name} yielded something that is not an expression", e)
         return got
     dups = [c for c, k in Counter(cids).items() if k > 1]
     if dups:
@@ -387,7 +390,8 @@ def chk_traversals(K, e, e2):
     ctx.count("traversal_checks", 2)
     ctx.count("events_judged", 2)
     r = run(lambda: list(TR.traverse_terminals(e)))
-    terms = [o for o in tree if o._ufl_is_terminal_]
+    # (walk the tree again: the unique traversals above re-pointed operands of equal nodes)
+    terms = [o for o in tree_pre(e) if o._ufl_is_terminal_]
     if r[0] != "ok":
         K.viol(f"C19/traverse_terminals/raised/{type(r[1]).__name__}", f"raised {r[1]!r:.200}", e)
     elif Counter(map(id, r[1])) != Counter(map(id, terms)):
